@@ -67,6 +67,15 @@ Explain(full) ==
             /\ Ev.ret = CloneRet(Ev.rs) /\ PostMatches
       [] Ev.op = "setref" ->
             /\ SetRefS(Ev.r, Ev.s, Ev.v) /\ UPart(full, UidUnchanged) /\ PostMatches
+      \* a DOM handed over by a file reader: it must be a well-formed forest whose UniqueIds are
+      \* pairwise distinct and exactly mirrored by the bookkeeping set; then it is adopted as DOM Ev.d
+      [] Ev.op = "decoded" ->
+            LET P == Ev.post IN
+            /\ WF(P.owner, P.parent, P.kids, P.root)
+            /\ (full => UidOK(P.owner, P.uid, [d \in Doms |-> SeqSet(P.uidset[d])]))
+            /\ nextRef' = Ev.next
+            /\ seen' = seen \cup ({P.uid[r] : r \in Refs} \ {NoUid})
+            /\ PostMatches
       [] Ev.op = "walk" ->
             /\ Ev.start \in Refs /\ owner[Ev.start] # NoDom
             /\ TopDown(Ev.start, Ev.yield)
